@@ -197,9 +197,15 @@ fn uint_ops<const N: usize>(op: &str, a: &Args) -> Option<Out> {
         "uint.checked_expr" => {
             let z: Uint<N> = u(ar(a, 2));
             let f = sc(a, 5);
-            let s1 = chk(sc(a, 3), Checked::new(x), Checked::new(y), f);
-            let s2 = chk(sc(a, 4), s1, Checked::new(z), f / 4);
-            ctopt(s2.0, uv)
+            if sc(a, 6) == 0 {
+                let s1 = chk(sc(a, 3), Checked::new(x), Checked::new(y), f);
+                let s2 = chk(sc(a, 4), s1, Checked::new(z), f / 4);
+                ctopt(s2.0, uv)
+            } else {
+                let s1 = chk(sc(a, 3), Checked::new(y), Checked::new(z), f);
+                let s2 = chk(sc(a, 4), Checked::new(x), s1, f / 4);
+                ctopt(s2.0, uv)
+            }
         }
         "uint.add" => val1(uv(&(x + y))),
         "uint.add.ref" => val1(uv(&(x + &y))),
